@@ -1,0 +1,17 @@
+//go:build verif
+
+package libvore
+
+// Contracts for package libvore, read by /verif/govc (comment-only file, build tag verif).
+
+// C19: a call may only write memory it allocated itself (and, for Run, nothing that belongs to
+// the compiled program), decided by write-effect inference over the SSA call graph: for every
+// schedule at once, two calls that share only memory that neither writes cannot race.
+//@ func Compile [C19]
+//@   effects noglobals
+//@ func (*Vore).Run [C19 C13]
+//@   effects noglobals
+//@   effects nowrite bytecode ast int
+//@ func (*Vore).RunFiles [C19]
+//@   effects noglobals
+//@   effects nowrite bytecode ast int
